@@ -1254,6 +1254,9 @@ def run(tier, replay):
         floor.append("only %d truncations" % b["n_trunc"])
     if b["n_must"] < 100:
         floor.append("only %d cuts inside object blocks" % b["n_must"])
+    if chk.extra.get("complete_states_loaded_ok", 0) < 2 * (len(cfgs) - 1):
+        floor.append("only %d loads of complete valid states succeeded (the error oracle needs them)" %
+                     chk.extra.get("complete_states_loaded_ok", 0))
     if b["n_flip"] < 100:
         floor.append("only %d bit flips" % b["n_flip"])
     if len(states) < 2 * len(cfgs):
